@@ -355,6 +355,10 @@ def _one_second_build(sb, cfg, prop, tier, seed, sources, gen_dirs, base, env, o
         e = viols.setdefault(pfx + bv.key, {"key": pfx + bv.key, "what": "%s (%s): %s" % (label, sb["flavour"], bv.key), "count": 0, "replay": ""})
         e["count"] += 1
         return
+    except HarnessError as he:
+        # e.g. an internal compiler error of the second compiler on a changed tree: this stage is inconclusive, what the primary build observed stands
+        harness_problems.append("second-build stage (%s) could not be built (inconclusive): %s" % (label, str(he)[-1500:]))
+        return
     sdir = os.path.join(outdir, "second-build-" + sb.get("prefix", "gxx"))
     os.makedirs(sdir, exist_ok=True)
     sargs = list(base) + ["--worker", "0/1"] + (["--only-type", sb["only_type"]] if sb.get("only_type") else [])
